@@ -1041,6 +1041,7 @@ def c06(tier, rng, fam='C06'):
     out += unencodable_send(fam)
     out += unencodable_elsewhere(fam)
     out += failed_opens(fam)
+    out += legal_oddities(fam)
     out += random_programs(fam, 150 if tier == 'quick' else 3000, rng)
     return out
 
@@ -1782,6 +1783,56 @@ def failed_opens(fam):
                     b.q()
                     b.step('ucall', c=2, pay='probe', hp=[ret(pay='fine')])
                     out.append(b.q().done())
+    return out
+
+
+def legal_oddities(fam):
+    """call sequences the gRPC API permits but ordinary code rarely produces, on both sides of a call; the ordinary
+    rules apply to them as to everything else (nothing after a close on the wire, headers once, results repeat)"""
+    out = []
+    md1, md2, md3 = [['k1', 'a']], [['k2', 'b'], ['K1', 'c']], [['k3-bin', '\x00\x01']]
+    echo_then_ok = [dict(o='echo')]
+
+    def add(tag, kind, hp, body, ser=True, **open_kw):
+        b = B(fam, 'oddity: ' + tag + (' (serialising)' if ser else ' (by reference)'), ser=ser)
+        b.step('sopen', c=1, kind=kind, hp=hp, **open_kw)
+        for op, kw in body:
+            b.step(op, c=1, **kw)
+        b.q()
+        b.step('ucall', c=2, pay='probe', hp=[ret(pay='fine')])
+        out.append(b.q().done())
+
+    S, R, C, H, T = (lambda p: ('send', dict(pay=p))), ('recv', {}), ('close', {}), ('hdr', {}), ('trl', {})
+    for ser in (True, False):
+        add('Send after CloseSend', 'bidi', echo_then_ok, [S('a'), R, C, S('after close'), R, R, T], ser)
+        add('CloseSend twice', 'bidi', echo_then_ok, [S('a'), R, C, C, R, R, T], ser)
+        # (a second CloseSend / a Send after CloseSend on a stream that is still live is outside every listed program class:
+        # goat writes a second close / a body after the close then - DESIGN section 6; here the stream is over by then)
+        add('Recv again and again after EOF', 'bidi', echo_then_ok, [S('a'), R, C, R, R, R, R, T, T], ser)
+        add('Recv again after an error status', 'bidi', [dict(o='recv'), ret(code=9, msg='precondition', det=1)], [S('a'), R, R, R, T, S('late'), R], ser)
+        add('Trailer before the stream has ended', 'bidi', echo_then_ok, [T, S('a'), T, R, C, R, T], ser)
+        add('Header three times, before, between and after receives', 'bidi', [dict(o='sethdr', md=md1), dict(o='echo')], [S('a'), H, R, H, C, R, H, T], ser)
+        add('Header on a stream that fails before any response', 'bidi', [ret(code=5, msg='nope')], [H, R, H, T], ser)
+        add('Header after the stream ended with headers in its trailer envelope', 'ss', [dict(o='recv'), dict(o='sethdr', md=md1), dict(o='settrl', md=md2), ret()], [S('q'), C, R, H, T, H], ser)
+        add('server-streaming caller sends two messages', 'ss', [dict(o='recv'), dict(o='send', pay='one'), dict(o='drain'), ret()], [S('q1'), S('q2'), C, R, R], ser)
+        add('client-streaming handler sends two replies', 'cs', [dict(o='drain'), dict(o='send', pay='r1'), dict(o='send', pay='r2'), ret()], [S('a'), C, R, R, R], ser)
+        add('empty messages both ways', 'bidi', echo_then_ok, [S(''), R, S(''), S(''), R, R, C, R], ser)
+        add('SendHeader twice', 'bidi', [dict(o='sendhdr', md=md1), dict(o='sendhdr', md=md2), dict(o='echo')], [H, S('a'), R, C, R, T], ser)
+        add('SetHeader after SendHeader', 'bidi', [dict(o='sendhdr', md=md1), dict(o='sethdr', md=md2), dict(o='echo')], [H, S('a'), R, C, R, T], ser)
+        add('SetHeader and SendHeader after the first message', 'bidi', [dict(o='recv'), dict(o='send', pay='first'), dict(o='sethdr', md=md2), dict(o='sendhdr', md=md3), dict(o='drain'), ret()], [S('a'), R, H, C, R, T], ser)
+        add('SendHeader with nothing set, then messages', 'ss', [dict(o='recv'), dict(o='sendhdr', md=[]), dict(o='send', pay='x'), dict(o='drain'), ret()], [S('q'), C, H, R, R, T], ser)
+        add('SetTrailer four times with overlapping keys', 'bidi', [dict(o='settrl', md=md1), dict(o='settrl', md=md2), dict(o='settrl', md=md3), dict(o='settrl', md=md1), dict(o='echo')], [S('a'), R, C, R, T], ser)
+        add('SetTrailer through the context and the stream alternately', 'ss', [dict(o='recv'), dict(o='settrl', md=md1, via='ctx'), dict(o='settrl', md=md2), dict(o='sethdr', md=md3, via='ctx'), dict(o='send', pay='x'), dict(o='drain'), ret(code=3, msg='bad')], [S('q'), C, R, R, H, T], ser)
+        add('handler sends on after the caller half-closed', 'bidi', [dict(o='drain'), dict(o='send', pay='p1'), dict(o='send', pay='p2'), dict(o='send', pay='p3'), ret()], [S('a'), C, R, R, R, R], ser)
+        # unary handlers
+        for tag, hp in (('SendHeader then SetHeader', [dict(o='sendhdr', md=md1), dict(o='sethdr', md=md2), ret(pay='r')]),
+                        ('SendHeader twice', [dict(o='sendhdr', md=md1), dict(o='sendhdr', md=md2), ret(pay='r')]),
+                        ('SetTrailer three times then an error', [dict(o='settrl', md=md1), dict(o='settrl', md=md2), dict(o='settrl', md=md3), ret(code=6, msg='exists')]),
+                        ('empty request, empty reply', [ret(pay='')])):
+            b = B(fam, 'oddity: unary handler, ' + tag + (' (serialising)' if ser else ' (by reference)'), ser=ser)
+            b.step('ucall', c=1, pay='' if 'empty' in tag else 'q', hp=hp)
+            b.step('ucall', c=2, pay='probe', hp=[ret(pay='fine')])
+            out.append(b.q().done())
     return out
 
 
